@@ -27,6 +27,7 @@ package main
 
 import (
 	"fmt"
+	"os"
 	"runtime"
 	"strings"
 
@@ -91,8 +92,12 @@ func body(w *run.Worker) {
 
 	stalls := 0
 	tooManyStalls := func() bool { return stalls >= 8 }
+	// Debugging aid: C15_ONLY=<group> runs one group only (floors will then
+	// be missed, so such a run never yields a verdict).
+	only := os.Getenv("C15_ONLY")
+	skip := func(group string) bool { return only != "" && only != group }
 
-	w.Cases("sched", w.N(1600, 120000), func(c *run.Case) {
+	w.Cases("sched", zeroIf(skip("sched"), w.N(1600, 120000)), func(c *run.Case) {
 		if tooManyStalls() {
 			w.Count("cases_skipped_after_stalls", 1)
 			return
@@ -114,8 +119,9 @@ func body(w *run.Worker) {
 		w.Count("schedules", 1)
 	})
 
+	replayMismatches := 0
 	cfgs := sysConfigs(w.Thorough())
-	w.Cases("sched-sys", share(len(cfgs), w), func(c *run.Case) {
+	w.Cases("sched-sys", zeroIf(skip("sched-sys"), share(len(cfgs), w)), func(c *run.Case) {
 		if tooManyStalls() {
 			w.Count("cases_skipped_after_stalls", 1)
 			return
@@ -123,20 +129,32 @@ func body(w *run.Worker) {
 		cfg := cfgs[int(c.Index)*w.Workers+w.Index]
 		c.Desc("all interleavings of %s", cfg.name)
 		var prefix []int
+		var prevReady []string
+		nIter := 0
 		for n := 0; ; n++ {
+			nIter = n + 1
 			if n >= 20000 {
 				w.Inconclusive("sched-sys: more than 20000 interleavings for " + cfg.name)
 				break
 			}
 			var branching, taken []int
+			var readySets []string
 			d := newDriver(true, false, nil)
 			d.choose = func(ready []string) int {
 				i := 0
 				if len(taken) < len(prefix) {
 					i = prefix[len(taken)]
+					// Replaying a prefix must reproduce the decision points
+					// of the previous execution exactly.
+					if rs := strings.Join(ready, " "); len(taken) < len(prevReady) && prevReady[len(taken)] != rs {
+						w.Count("sys_replay_mismatches", 1)
+						replayMismatches++
+						fmt.Fprintf(os.Stderr, "REPLAY MISMATCH %s: decision %d ready now [%s] before [%s]; released %v\nSETTLE: %s\n", cfg.name, len(taken), rs, prevReady[len(taken)], d.trace, d.lastSettle)
+					}
 				}
 				taken = append(taken, i)
 				branching = append(branching, len(ready))
+				readySets = append(readySets, strings.Join(ready, " "))
 				return i
 			}
 			p := cfg.mk()
@@ -157,10 +175,14 @@ func body(w *run.Worker) {
 				break
 			}
 			prefix = append(append([]int(nil), taken[:k]...), taken[k]+1)
+			prevReady = readySets[:k+1]
 		}
 		w.Count("sys_configs", 1)
+		if only != "" {
+			fmt.Fprintf(os.Stderr, "SYS %s => %d\n", cfg.name, nIter)
+		}
 	})
-	w.Exhaustive("interleavings: 2 consumers with <=6 script steps, 3 consumers with <=5, 5 source scripts", !tooManyStalls())
+	w.Exhaustive("interleavings: 2 consumers with <=6 script steps, 3 consumers with <=5, 5 source scripts", !tooManyStalls() && replayMismatches == 0)
 
 	depth := 2
 	if w.Thorough() {
@@ -168,7 +190,7 @@ func body(w *run.Worker) {
 	}
 	seqs := sysSequences(depth)
 	total := len(seqs) * numSysBases * numSysLeaves
-	w.Cases("prog-sys", share(total, w), func(c *run.Case) {
+	w.Cases("prog-sys", zeroIf(skip("prog-sys"), share(total, w)), func(c *run.Case) {
 		if tooManyStalls() {
 			w.Count("cases_skipped_after_stalls", 1)
 			return
@@ -190,7 +212,7 @@ func body(w *run.Worker) {
 	})
 	w.Exhaustive(fmt.Sprintf("programs: every op sequence of length<=%d over %d ops x %d bases x %d consumptions", depth, len(sysOps), numSysBases, numSysLeaves), !tooManyStalls())
 
-	w.Cases("prog-rnd", w.N(2400, 160000), func(c *run.Case) {
+	w.Cases("prog-rnd", zeroIf(skip("prog-rnd"), w.N(2400, 160000)), func(c *run.Case) {
 		if tooManyStalls() {
 			w.Count("cases_skipped_after_stalls", 1)
 			return
@@ -221,6 +243,13 @@ func body(w *run.Worker) {
 // worker index in through the generator's output function separates them.
 func caseRng(w *run.Worker, c *run.Case) *gen.Rng {
 	return gen.New(c.Rng.Uint64(), gen.New(uint64(w.Index)+1).Uint64(), c.Rng.Uint64())
+}
+
+func zeroIf(skip bool, n int) int {
+	if skip {
+		return 0
+	}
+	return n
 }
 
 func share(total int, w *run.Worker) int {
